@@ -333,8 +333,19 @@ pub fn set_nonce_random_override(v: Option<[u8; 8]>) {
     NONCE_OVERRIDE.with(|c| c.set(v));
 }
 
-pub(crate) fn nonce_random_override(random: [u8; 8]) -> [u8; 8] {
-    NONCE_OVERRIDE.with(|c| c.get()).unwrap_or(random)
+/// The forced value is constant per session key (the worst case for nonce uniqueness under one
+/// key) but differs between keys: the handler's nonce -> address map relies on message nonces
+/// being unique across sessions, which real randomness gives with overwhelming probability.
+pub(crate) fn nonce_random_override(random: [u8; 8], key: &[u8; 16]) -> [u8; 8] {
+    match NONCE_OVERRIDE.with(|c| c.get()) {
+        Some(mut forced) => {
+            for (f, k) in forced.iter_mut().zip(key.iter()) {
+                *f ^= *k;
+            }
+            forced
+        }
+        None => random,
+    }
 }
 
 /* ---------------------------------------------------------------------------------------- */
